@@ -80,7 +80,9 @@ func c12Main(fl *evid.Flags) int {
 		"C=[n2,n1] over one daemon; (2) enumeration for N<=3 of all 2^N ADD failure masks x every rollback-DEL failure mask, " +
 		"and all DEL failure masks over two consecutive DELs (second a submask of the first); (3) random configs (JsonConf maps, " +
 		".conf/.json/subdir files), pods (comma/JSON/no annotation, ENI, defaults, repeated networks, unknown networks), random " +
-		"ADD/DEL sequences with random failure plans; (4) the same concurrently from 8-32 goroutines in child processes. " +
+		"ADD/DEL sequences with random failure plans; (4) the same concurrently from 8-32 goroutines in child processes, against a " +
+		"daemon with a real PolicyManager (policies selecting some pods, a goroutine delivering policy/pod events and full syncs " +
+		"meanwhile) and ~40% of the pods carrying host ports (hostPort 0 + portmapping annotation, or probed-free fixed ports; TCP/UDP). " +
 		"A case is non-trivial when its request was issued and evaluated; distinct = distinct (N, masks) / (form, N, op-shape)."
 	run.Assume("the fake plugin binary reports what it received faithfully (log written under flock, one line per invocation)")
 	run.Assume("fake kube client stands in for the API server; pods exist before ADD (getPod's 5 s retry is not exercised)")
@@ -120,6 +122,14 @@ func c12Main(fl *evid.Flags) int {
 	}
 	if run.Counter("concurrent_requests") == 0 && run.Counter("concurrent_child_fatal") == 0 {
 		run.Inconclusive("concurrent phase observed nothing")
+	}
+	if run.Counter("concurrent_requests") > 0 {
+		for _, name := range []string{"concurrent_adds_with_ports", "hostport_sockets_opened", "concurrent_dels_through_port_cleanup",
+			"policy_syncs_overlapped_with_cni_requests", "concurrent_adds_of_policy_selected_pods"} {
+			if run.Counter(name) == 0 {
+				run.Inconclusive("concurrent phase: counter " + name + " is zero, the port-mapping / policy paths were not reached")
+			}
+		}
 	}
 	return run.Finish(evid.Tiered(fl.Tier, 100, 400))
 }
@@ -185,7 +195,11 @@ func runOneChild(run *evid.Run, env *runEnv, fl *evid.Flags, spec childSpec) {
 	defer cleanPrefix(spec.CidPrefix)
 	run.Count("concurrent_children", 1)
 	partial, perr := evid.ReadPartial(filepath.Join(spec.Dir, "partial.json"))
-	if werr == nil && perr == nil {
+	if perr == nil && (werr == nil || exitCode(werr) == 66) {
+		// exit code 66 = the race detector (when race-built for C19) reported something; the reports are in its log files
+		if werr != nil {
+			run.Count("concurrent_children_exit_66_race_reports", 1)
+		}
 		run.Merge(partial)
 		return
 	}
@@ -208,6 +222,13 @@ func runOneChild(run *evid.Run, env *runEnv, fl *evid.Flags, spec childSpec) {
 	}
 	run.Inconclusive(fmt.Sprintf("concurrent child %d failed without a recognisable fatal error (wait: %v, partial: %v): %s",
 		spec.Shard, werr, perr, strings.Join(head, " | ")))
+}
+
+func exitCode(err error) int {
+	if ee, ok := err.(*exec.ExitError); ok {
+		return ee.ExitCode()
+	}
+	return -1
 }
 
 func cleanPrefix(prefix string) {
